@@ -1,7 +1,10 @@
 #!/venv/bin/python
-"""tools/seedrun.py <patch.diff> [ids...]: apply a seeded patch to /repo, run checks, undo.
-Prints one line per check: id exit-code #violations. Never leaves /repo dirty."""
-import json, os, subprocess, sys
+"""tools/seedrun.py [--in-repo] <patch.diff> [ids...]
+Run checks against a seeded patch. Default: the patch is applied to a scratch copy of /repo's HEAD
+tree under /tmp (VERIF_REPO points the checks at it; removed afterwards) so /repo stays untouched and
+several seeds can run at once. --in-repo: apply in /repo itself, run, and undo (git checkout -- .).
+Prints one line per check: id exit=<code> violations=<n>."""
+import json, os, shutil, subprocess, sys, tempfile
 HERE = os.path.dirname(os.path.dirname(os.path.abspath(__file__)))
 
 
@@ -13,30 +16,47 @@ def claimed():
         return []
 
 
+def run_checks(ids, env):
+    for pid in ids:
+        try:
+            p = subprocess.run([os.path.join(HERE, 'check'), pid], capture_output=True, text=True, timeout=900, cwd=HERE, env=env)
+            out = p.stdout
+            nv = out.count('VIOLATION property=')
+            print('%s exit=%d violations=%d' % (pid, p.returncode, nv))
+            for line in out.splitlines():
+                if line.startswith('ANALYSIS-ERROR') or ('[' in line and ']' in line and not line.startswith(('VIOLATION', 'KNOWN', pid + ' '))):
+                    print('    ' + line[:300])
+        except subprocess.TimeoutExpired:
+            print('%s TIMEOUT' % pid)
+
+
 def main():
-    patch = os.path.abspath(sys.argv[1])
-    ids = sys.argv[2:] or claimed()
-    st = subprocess.run(['git', '-C', '/repo', 'status', '--porcelain'], capture_output=True, text=True).stdout.strip()
-    if st:
-        print('refusing: /repo is dirty'); return 2
-    r = subprocess.run(['git', '-C', '/repo', 'apply', patch])
-    if r.returncode:
-        print('patch does not apply'); return 2
+    args = sys.argv[1:]
+    in_repo = '--in-repo' in args
+    args = [a for a in args if a != '--in-repo']
+    patch = os.path.abspath(args[0])
+    ids = args[1:] or claimed()
+    if in_repo:
+        st = subprocess.run(['git', '-C', '/repo', 'status', '--porcelain'], capture_output=True, text=True).stdout.strip()
+        if st:
+            print('refusing: /repo is dirty'); return 2
+        if subprocess.run(['git', '-C', '/repo', 'apply', patch]).returncode:
+            print('patch does not apply'); return 2
+        try:
+            run_checks(ids, dict(os.environ))
+        finally:
+            subprocess.run(['git', '-C', '/repo', 'checkout', '--', '.'])
+        return 0
+    tmp = tempfile.mkdtemp(prefix='seedscratch_', dir='/tmp')
     try:
-        for pid in ids:
-            try:
-                p = subprocess.run([os.path.join(HERE, 'check'), pid], capture_output=True, text=True, timeout=600, cwd=HERE)
-                out = p.stdout
-                nv = out.count('VIOLATION property=')
-                print('%s exit=%d violations=%d' % (pid, p.returncode, nv))
-                for line in out.splitlines():
-                    if line.startswith('ANALYSIS-ERROR') or '[' in line and ']' in line and not line.startswith(('VIOLATION', 'KNOWN', pid)):
-                        print('    ' + line[:300])
-            except subprocess.TimeoutExpired:
-                print('%s TIMEOUT' % pid)
+        subprocess.run('git -C /repo archive HEAD | tar -x -C %s' % tmp, shell=True, check=True)
+        subprocess.run(['git', 'init', '-q'], cwd=tmp)
+        if subprocess.run(['git', 'apply', patch], cwd=tmp).returncode:
+            print('patch does not apply'); return 2
+        env = dict(os.environ, VERIF_REPO=tmp, VERIF_EVIDENCE_DIR=os.path.join(tmp, '_evidence'))
+        run_checks(ids, env)
     finally:
-        subprocess.run(['git', '-C', '/repo', 'checkout', '--', '.'])
-        subprocess.run(['git', '-C', '/repo', 'clean', '-fdq', 'python'])
+        shutil.rmtree(tmp, ignore_errors=True)
     return 0
 
 
